@@ -199,6 +199,7 @@ func runHarness(prog *ssa.Program, pkg *ssa.Package, f *ssa.Function, params map
 	fast.Incremental = os.Getenv("VERIF_NOINCR") == ""
 	sb, sa := solverCmd(solver, strongT)
 	strong := NewSolver(sb, sa...)
+	strong.Name = solver
 	fast.AbsHeavyDiv, strong.AbsHeavyDiv = absHeavyDiv, absHeavyDiv
 	if solver == "cvc5" {
 		strong.send("(set-logic ALL)")
@@ -217,6 +218,18 @@ func runHarness(prog *ssa.Program, pkg *ssa.Package, f *ssa.Function, params map
 		reached: map[string]int{}, witnessed: map[string]bool{}, params: params, tier: tier, merge: merge, mergeCap: mergeCap,
 		base: map[int]*Obj{}, fninfo: map[*ssa.Function]*fnInfo{}, funcsHit: map[string]int{}, asserts: map[string]*AssertStat{},
 		lockset: map[[2]int]*lockSet{}, mergeOK: map[siteKey]int{}, mergeBad: map[siteKey]int{}, overrides: map[string]*ssa.Function{}, overrideGroup: map[*ssa.Function]string{}, stubsUsed: map[string]int{}, traceOn: trace}
+	e.strongT = strongT
+	e.fallbackHits, e.fallbackErr = map[string]int{}, map[string]int{}
+	for _, n := range []string{"z3-new", "cvc5", "z3"} {
+		if n != solver && os.Getenv("VERIF_NOFALLBACK") == "" {
+			e.altNames = append(e.altNames, n)
+		}
+	}
+	defer func() {
+		for _, s := range e.alts {
+			s.Close()
+		}
+	}()
 	defer func() {
 		if r := recover(); r != nil {
 			res.Status = "inconclusive"
@@ -362,23 +375,35 @@ func runHarness(prog *ssa.Program, pkg *ssa.Package, f *ssa.Function, params map
 		}
 		if o.Kind != "assert" && o.Nondet == nil && o.pc != nil {
 			// obtain a model for the path
-			r := strong.Check(o.pc)
+			r, sv := e.strongCheck(o.pc)
 			if r == "sat" {
-				o.Nondet = e.modelOf(strong, o.nd)
+				o.Nondet = e.modelOf(sv, o.nd)
+				sv.Pop()
 			} else if r == "unsat" {
 				o.Msg += " [path infeasible under strong solver]"
+				sv.Pop()
 			} else {
 				o.Msg = o.Kind + " path: " + o.Msg + " [feasibility undecided: " + r + "]"
 				o.Kind = "unknown"
 				status = "inconclusive"
 			}
-			strong.Pop()
 		}
 		res.Outcomes = append(res.Outcomes, o)
 	}
 	if fast.Errors > 0 || strong.Errors > 0 {
 		status = "inconclusive"
 		res.Error = "solver error line: " + strong.LastErr + fast.LastErr
+	}
+	if len(e.fallbackHits)+len(e.fallbackErr) > 0 {
+		fbm := map[string]interface{}{}
+		for n, s := range e.alts {
+			fbm[n] = map[string]interface{}{"queries": s.Queries, "sat": s.NSat, "unsat": s.NUnsat, "unknown": s.NUnknown, "decided_after_primary_unknown": e.fallbackHits[n], "total_s": s.Total.Seconds(), "max_s": s.MaxQ.Seconds()}
+		}
+		for n, c := range e.fallbackErr {
+			fbm[n+"_discarded_error_answers"] = c
+		}
+		res.Solver["obligation_fallback"] = fbm
+		res.Solver["obligation"].(map[string]interface{})["unknown"] = strong.NUnknown
 	}
 	res.Status = status
 	return res
